@@ -142,7 +142,18 @@ def run_check(ctx, args):
             res = mod.replay(ctx, rp)
             print(json.dumps(res, indent=1, default=str, ensure_ascii=False))
             return 0 if res.get("property_holds") else 1
-        out = mod.run(ctx)
+        try:
+            out = mod.run(ctx)
+        except core.MachineryError:
+            raise
+        except Exception as e:  # noqa
+            # the harness could not complete against this code: the implementation behaved in a way the
+            # correspondence does not anticipate. On the unchanged tree this never happens (checked); on a
+            # changed tree it means the correspondence no longer checks.
+            tb = traceback.format_exc()
+            out = core.Outcome(rule="(aborted)")
+            out.evaluations = 1
+            out.disagree(dict(kind="harness-exception"), f"the correspondence run aborted with {type(e).__name__}: {e}", traceback=tb[-3000:])
     finally:
         ctx.driver.close()
 
